@@ -15,6 +15,7 @@ from common import show_list, frac_str
 LEVEL = "other"
 LEAN_PROPS = ["FastTicc.Props.C16", "FastTicc.Props.C05", "FastTicc.Props.Final", "FastTicc.Props.OptPhase"]
 LEAN_HELPERS = ["FastTicc.Proofs.Result", "FastTicc.Proofs.Final"]
+LEAN_TRANSLATED = {"FastTicc.Props.TrBic": ["bayesian_information_criterion"]}
 RULE = ("(a) synthetic models: label patterns (one run, many runs, returning labels, unused clusters, joint sequences) "
         "x MRFs with entries around the 2e-5 threshold, and a scale sweep of determinants far outside the double range; "
         "(b) completed runs: value recomputed from the final model state; non-trivial = >=2 runs of labels; distinct by input")
